@@ -644,7 +644,7 @@ def ev(n, env, funcs=None):
             target = funcs['__resolve__'](n, fname)
             if target is not None:
                 return target(*args, **kw_)
-        if funcs and fname in funcs and fname not in ('__globals__', '__name__', '__resolve__', '__defaults__', '__default_values__'):
+        if funcs and fname in funcs and fname not in ('__globals__', '__name__', '__resolve__', '__defaults__', '__default_values__', '__np_names__'):
             return funcs[fname](*args, **kw_)
         if funcs and '__resolve__' in funcs:
             target = funcs['__resolve__'](n, fname)
